@@ -207,6 +207,42 @@ class Program:
                             out.append((c, fn, st, st.value))
         return out
 
+    def attr_is_frozen(self, ci: ClassInfo, attr, ctor_methods=("__init__", "pass_spatial_data")):
+        """True when self.attr has exactly one assignment site in the class hierarchy, that site is in
+        a constructor-time method, and no method mutates it in place (append/extend/[..]=/op=)."""
+        sites = self.self_assignments(ci, attr)
+        if len(sites) != 1 or sites[0][1].name not in ctor_methods:
+            return False
+        for c in self.mro(ci):
+            for fn in c.methods.values():
+                if not fn.args.args:
+                    continue
+                sn = fn.args.args[0].arg
+                for n in ast.walk(fn):
+                    if isinstance(n, ast.AugAssign):
+                        b = n.target
+                        while isinstance(b, ast.Subscript):
+                            b = b.value
+                        if _is_self_attr(b, sn, attr):
+                            return False
+                    elif isinstance(n, ast.Assign):
+                        for t in n.targets:
+                            b = t
+                            sub = False
+                            while isinstance(b, ast.Subscript):
+                                b = b.value
+                                sub = True
+                            if sub and _is_self_attr(b, sn, attr):
+                                return False
+                    elif isinstance(n, ast.Call) and isinstance(n.func, ast.Attribute) \
+                            and n.func.attr in ("append", "extend", "insert", "pop", "sort", "resize", "fill", "clear"):
+                        b = n.func.value
+                        while isinstance(b, ast.Subscript):
+                            b = b.value
+                        if _is_self_attr(b, sn, attr):
+                            return False
+        return True
+
     def slot_targets(self, ci: ClassInfo, attr):
         """Methods a bound-method attribute may hold: `self.attr = self.m` (also inside a
         conditional expression).  Returns (list of (ClassInfo, FunctionDef), may_be_external)."""
